@@ -241,7 +241,7 @@ def xref_program(rng):
     """a well-typed program rich in cross-declaration references: 4-7 declarations of splgen with bodies cut to
     at most 2 statements, then calls between the user-defined procedures (also to procedures declared later, and
     recursive ones) whose array arguments are fresh locals declared with the parameter's type name"""
-    prog, env = splgen.well_typed_program(rng, ndecls=rng.randrange(4, 8))
+    prog, env = splgen.well_typed_program(rng, ndecls=rng.randrange(4, 8), shadow=False)
     prog = [d if d[0] == "type" else ("proc", d[1], d[2], d[3], d[4][:rng.randrange(0, 3)]) for d in prog]
     type_at = {d[1]: i for i, d in enumerate(prog) if d[0] == "type"}
     procs = [(i, d) for i, d in enumerate(prog) if d[0] == "proc"]
